@@ -777,7 +777,88 @@ def check_sumvar_call(repo, chk):
             chk.violation("S-sumvar", call.key, "call:%s" % ("hess" if with_h else "grad"), "SumVar()%s evaluates to %s, expected %s: if the stored value is not gradient-stopped, error propagation through a batched sum counts the derivative twice" % (" with a Hessian" if with_h else "", out, want), file=VARF, line=call.lineno)
 
 
+def check_transform_wrappers(repo, chk, only=None):
+    """the four bound-transform wrappers of VarsManager interpreted as a whole on a manager with one bounded (a) and
+    one free (b) trainable variable: what the inner function is called with, and what comes back"""
+    import numpy as np
+    import sympy as sp
+
+    from ..sym import PyFunc, SelfObj, Translator, Unmodelled, equal
+    VARF = "tf_pwa/variable.py"
+    chk.rule("B-wrap", "trans_fcn_grad / trans_grad_hessp / trans_f_grad_hess / trans_error_matrix interpreted as a whole on a manager with a bounded variable a (x -> y = Y(x), slopes as free real symbols) and a free variable b: the inner function is evaluated at (Y(x_a), x_b) (and p * dy), and value, gradient g dy, Hessian-vector product hp dy + g d2y p, Hessian dy H dy + diag(g d2y) and covariance dy_i V_ij dy_j come back - computed from the point x that was passed in, not from a transformed copy of it")
+    vm = repo.cls(VARF + "::VarsManager")
+    xa, xb = sp.symbols("x_a x_b", real=True)
+    Y = sp.Function("Y")
+    d1, e1 = sp.symbols("dy_a d2y_a", real=True)
+    g1, g2, hp1, hp2, p1, p2, F = sp.symbols("g1 g2 hp1 hp2 p1 p2 F", real=True)
+    H = np.array([[sp.Symbol("h11", real=True), sp.Symbol("h12", real=True)], [sp.Symbol("h12", real=True), sp.Symbol("h22", real=True)]], dtype=object)
+    V = np.array([[sp.Symbol("v11", real=True), sp.Symbol("v12", real=True)], [sp.Symbol("v12", real=True), sp.Symbol("v22", real=True)]], dtype=object)
+    seen_x = []
+
+    def slot(kind):
+        def f_(x):
+            seen_x.append((kind, sp.sympify(x)))
+            return {"x2y": Y(x), "dydx": d1, "d2ydx2": e1}[kind]
+        return PyFunc(f_)
+
+    bound = SelfObj(None, {"get_x2y": slot("x2y"), "get_dydx": slot("dydx"), "get_d2ydx2": slot("d2ydx2")})
+    dom = {"dy_a": (sp.Rational(-2), sp.Rational(-1, 2))}  # a falling transform (upper-only bound): |dy| != dy
+
+    def run_(name, inner, args):
+        fn = vm.methods.get(name)
+        if fn is None:
+            raise AnalysisError("anchor vanished: VarsManager.%s" % name)
+        so = SelfObj(vm, {"trainable_vars": ["a", "b"], "bnd_dic": {"a": bound}})
+        tr = Translator(repo, hooks={"stack_as_array": True, "concrete_zeros": True}, max_depth=3)
+        del seen_x[:]
+        try:
+            w = tr.call_fn(fn, ([PyFunc(inner)] if inner is not None else []) + (args if inner is None else []), {}, self_obj=so)
+            if inner is not None:
+                w = tr.apply(w, args, {}, None, 1)
+        except Unmodelled as e:
+            raise AnalysisError("VarsManager.%s cannot be interpreted: %s" % (name, e))
+        return fn, w
+
+    def compare(fn, label, got, want):
+        def flat(x):
+            if isinstance(x, (tuple, list)):
+                return [z for i in x for z in flat(i)]
+            if isinstance(x, np.ndarray):
+                return [sp.sympify(v) for v in x.ravel()]
+            return [sp.sympify(x)]
+        a, b = flat(got), flat(want)
+        ok = len(a) == len(b) and all(equal(u, v, symbols_domain=dom)[0] is True for u, v in zip(a, b))
+        chk.oblige("B-wrap", "%s: %s" % (fn.key.split("::")[1], label), ok)
+        if not ok:
+            chk.violation("B-wrap", fn.key, label.split(":")[0], "%s: got %s, the chain rule for y = (Y(x_a), x_b) requires %s" % (label, [str(z) for z in a][:8], [str(z) for z in b][:8]), file=VARF, line=fn.lineno)
+        bad_x = [(k, x) for k, x in seen_x if x != xa]
+        if bad_x:
+            chk.violation("B-wrap", fn.key, "point:" + label.split(":")[0], "%s: the bound transform / its slope is evaluated at %s instead of the point x_a that was passed in (the transformed copy aliases the input)" % (label, bad_x[0][1]), file=VARF, line=fn.lineno)
+
+    x = [xa, xb]
+    ywant = [Y(xa), xb]
+    calls = []
+    if only in (None, "grad"):
+        fn, out = run_("trans_fcn_grad", lambda y: (calls.append(("fg", y)), (F, np.array([g1, g2], dtype=object)))[1], [list(x)])
+        compare(fn, "value-grad: (F, g dy)", out, (F, [g1 * d1, g2]))
+        compare(fn, "inner-point: f evaluated at (Y(x_a), x_b)", calls[-1][1] if calls else None, ywant)
+    if only in (None, "hessp"):
+        del calls[:]
+        fn, out = run_("trans_grad_hessp", lambda y, p: (calls.append(("gh", y, p)), (np.array([g1, g2], dtype=object), np.array([hp1, hp2], dtype=object)))[1], [list(x), np.array([p1, p2], dtype=object)])
+        compare(fn, "grad-hessp: (g dy, hp dy + g d2y p)", out, ([g1 * d1, g2], [hp1 * d1 + g1 * e1 * p1, hp2]))
+        compare(fn, "inner-point: f evaluated at (Y(x_a), x_b) with p dy", list(calls[-1][1:]) if calls else None, [ywant, [p1 * d1, p2]])
+    if only in (None, "hess"):
+        del calls[:]
+        fn, out = run_("trans_f_grad_hess", lambda y: (calls.append(("fgh", y)), (F, np.array([g1, g2], dtype=object), H.copy()))[1], [list(x)])
+        compare(fn, "value-grad-hess: (F, g dy, dy H dy + diag(g d2y))", out, (F, [g1 * d1, g2], [[d1 * H[0, 0] * d1 + g1 * e1, d1 * H[0, 1]], [H[1, 0] * d1, H[1, 1]]]))
+        compare(fn, "inner-point: f evaluated at (Y(x_a), x_b)", calls[-1][1] if calls else None, ywant)
+    if only in (None, "cov"):
+        fn, out = run_("trans_error_matrix", None, [V.copy(), list(x)])
+        compare(fn, "covariance: dy_i V_ij dy_j", out, [[d1 * V[0, 0] * d1, d1 * V[0, 1]], [V[1, 0] * d1, V[1, 1]]])
+
+
 def run(repo, chk, tier):
+    check_transform_wrappers(repo, chk)
     check_sumvar(repo, chk)
     check_sumvar_call(repo, chk)
     check_gauss_constr(repo, chk)
